@@ -4,7 +4,6 @@ Signatures: "<numerics.kernel | RecurrencePlot.method>:<differs|raises:<Exc>|
 conservation|sequential!=matrix|not-realised>[:<input classes joined by '+'>]"
 with input classes sparse (sequential storage mode), missing, asymmetric,
 float32-boundary, embedded -- mechanism only."""
-import itertools
 import warnings
 
 import numpy as np
@@ -50,24 +49,27 @@ META = dict(
         "(matrix, mask, boundary, mode) whose reference histograms contain "
         "a line of length >=2 and which is not uniformly black or white."),
     floors={
-        "quick": {"kernel_hist_compared": 20000, "kernel_missing_compared":
-                  5000, "kernel_sequential_compared": 3000,
-                  "kernel_random_matrices": 100, "api_realised": 2000,
-                  "api_hist_compared": 8000, "api_scalar_compared": 40000,
-                  "api_sparse_objects": 1000, "api_missing_objects": 300,
-                  "conservation_checked": 6000, "boundary_cases": 30,
-                  "boundary_cases_modes_disagree_in_R": 10,
-                  "sequential_vs_matrix_compared": 2000},
-        "thorough": {"kernel_hist_compared": 60000,
-                     "kernel_missing_compared": 30000,
-                     "kernel_sequential_compared": 8000,
-                     "kernel_random_matrices": 1000, "api_realised": 2000,
-                     "api_hist_compared": 20000,
-                     "api_scalar_compared": 100000,
-                     "api_sparse_objects": 3000, "api_missing_objects": 3000,
-                     "conservation_checked": 20000, "boundary_cases": 300,
-                     "boundary_cases_modes_disagree_in_R": 100,
-                     "sequential_vs_matrix_compared": 8000}},
+        "quick": {"kernel_hist_compared": 2500, "kernel_missing_compared":
+                  12000, "kernel_sequential_compared": 5000,
+                  "kernel_random_matrices": 700, "api_realised": 1700,
+                  "api_hist_compared": 9000, "api_scalar_compared": 150000,
+                  "api_sparse_objects": 1700, "api_missing_objects": 1000,
+                  "api_asymmetric_objects": 250,
+                  "conservation_checked": 2000, "boundary_cases": 500,
+                  "boundary_cases_modes_disagree_in_R": 150,
+                  "sequential_vs_matrix_compared": 3000},
+        "thorough": {"kernel_hist_compared": 22000,
+                     "kernel_missing_compared": 100000,
+                     "kernel_sequential_compared": 36000,
+                     "kernel_random_matrices": 10000, "api_realised": 15000,
+                     "api_hist_compared": 85000,
+                     "api_scalar_compared": 1400000,
+                     "api_sparse_objects": 15000,
+                     "api_missing_objects": 7500,
+                     "api_asymmetric_objects": 3000,
+                     "conservation_checked": 20000, "boundary_cases": 6500,
+                     "boundary_cases_modes_disagree_in_R": 2500,
+                     "sequential_vs_matrix_compared": 30000}},
     exhaustive_subspaces={
         "quick": ["symmetric unit-diagonal 0/1 matrices n<=5 (1099) at the "
                   "kernel boundary and through RecurrencePlot in both "
@@ -502,13 +504,12 @@ def run(ctx):
             for M in masks[(code % max(len(masks), 1)):][:2 if n < 5 or all5
                                                          else 1]:
                 Xm = nan_series(X, M, r, whole=bool(code & 1))
-                api_pair(ctx, RP, Xm, ref.mask_missing(R, M), M,
-                         cid + ":m" + "".join(str(int(b)) for b in M), [],
-                         {**case, "missing": M}, r, threshold=1.5)
+                api_pair(ctx, RP, Xm, ref.mask_missing(R, M), M, cid, [],
+                         {**case, "missing": M, "x": Xm}, r, threshold=1.5)
     ctx.note("exhaustive_matrices", idx)
     # 2. random
     nmax = 150 if ctx.thorough else 60
-    cap = 40000 if ctx.thorough else 6400
+    cap = 90000 if ctx.thorough else 6400
     k = 0
     while ctx.time_left() > 0 and k < cap:
         k += 1
